@@ -204,6 +204,20 @@ func CheckSession(c Case) (vs hx.Vs, classes []string) {
 			break
 		}
 	}
+	if recv := s.DB.Received(); len(recv) > 0 {
+		last := recv[len(recv)-1]
+		if v := clearInts(c, []byte(last.SQL)); v != nil {
+			vs.Add(sig("search-term-in-clear"), "the statement the database received holds the searched integer %s\n  sent:    %.300s\n  emitted: %.400s", v, r.SQL, emitted)
+		}
+		for i, p := range last.Params {
+			if i < len(r.Params) && r.Search[i] && isInt(r.PTypes[i]) && !p.Null && bytes.Equal(p.Data, pgprog.ParamBytes(r.Params[i], r.PTypes[i], r.PFmts[i])) {
+				vs.Add(sig("search-term-in-clear"), "parameter $%d reached the database holding the searched integer %s", i+1, r.Params[i].B)
+			}
+		}
+	}
+	if len(rep.Errors) > 0 && string(owner) != string(w.Alice) && c.Col.OnFail == "error" {
+		return // reading another client's column under the error policy fails by design
+	}
 	if len(rep.Errors) > 0 {
 		vs.Add(sig("select-failed"), "%.300s answered %q\n  emitted: %.400s", r.SQL, rep.Errors, emitted)
 		return
@@ -232,11 +246,12 @@ func CheckSession(c Case) (vs hx.Vs, classes []string) {
 		}
 		got = append(got, id)
 		// rows returned to the owner carry the plaintext
+		if string(owner) != string(w.Alice) {
+			continue // the column belongs to another client: what alice gets back is C02's / C19's business
+		}
 		sv, _, derr := pgprog.Decode(row[1], oidOf(1), resFmt)
 		if derr != nil {
 			vs.Add("undecodable-value", "row %d: column s (oid %d, format %d): %v", id, oidOf(1), resFmt, derr)
-		} else if string(owner) != string(w.Alice) {
-			// the column belongs to another client: what alice gets back is C02's business
 		} else if !sameVal(sv, c.Rows[id-1].S) {
 			vs.Add("owner-read-differs", "row %d: owner received %.60q, plaintext is %.60q (oid %d, format %d)", id, sv.B, c.Rows[id-1].S.B, oidOf(1), resFmt)
 		}
@@ -318,7 +333,7 @@ func CheckSession(c Case) (vs hx.Vs, classes []string) {
 
 func TestSearchSessions(t *testing.T) {
 	R.Rule("TestSearchSessions", "whole PostgreSQL sessions through acra's real proxy (internal/pgsess): table t(id, s searchable, p, n) + u(id, ref, tag); the 1-12 generated plaintexts (as TestRewritePG) are INSERTed in 1..n statements over the simple or extended protocol (text/binary parameters, declared or inferred types, literal spellings, casts), then one SELECT id, s FROM t [AS q] [JOIN u ..] WHERE cond (condition forms as TestRewritePG; placeholders in text and binary format, mixed with placeholders on plain columns) is executed; the typed fake database evaluates the rewritten condition literally. Oracles: every stored value starts with the reference index of its plaintext; multiset of returned ids = model; every returned row carries the plaintext (decoded by an independent codec as the described type); no plaintext marker of any stored or searched value in the bytes the database received; after swapping the indexes of two rows with different plaintexts in the store, the owner receives neither plaintext for them. Non-trivial = a searched value is present AND some row is excluded. I/O deadlines = inconclusive")
-	hx.Checks(40, 400)
+	hx.Checks(40, 2000)
 	rapid.Check(t, func(rt *rapid.T) {
 		c := genCase(rt, genOpts{session: true})
 		vs, extra := CheckSession(c)
